@@ -3,6 +3,7 @@
 //! itself as a worker, and when the worker produces no record for a case within the time budget
 //! it kills it, records HANG for that case and restarts the worker after it.
 mod s_deb822;
+mod s_rel;
 mod util;
 
 use std::io::{BufRead, BufReader, Write};
@@ -15,6 +16,7 @@ type StreamFn = fn(&[&str]) -> String;
 fn stream_fn(name: &str) -> Option<StreamFn> {
     Some(match name {
         "deb822-parse" => s_deb822::deb822_parse,
+        "rel-parse" => s_rel::rel_parse,
         _ => return None,
     })
 }
